@@ -39,6 +39,7 @@ ALLOW_CELLS = {
     "G:func_adl_xAOD.common.cpp_functions.functions_to_replace":
         "written only by add_function_mapping, every call of which is a module-level (import time) statement",
 }
+MUTATORS = {"append", "extend", "insert", "update", "clear", "pop", "remove", "add", "setdefault", "sort", "reverse", "discard", "popitem"}
 # executor attributes that are configuration constants of the backend (assigned once in __init__, never written later)
 CONFIG_ATTRS = {"_file_names", "_runner_name", "_template_dir_name", "_method_names", "_ecc"}
 
@@ -205,8 +206,67 @@ def check(col: Collector, tier: str):
 
     # a representation cached on an AST node by an earlier translation is never valid in a later one
     from sa.props._tr import check_prefix_test
-    col.floor("C07.R7", 2)
+    col.floor("C07.R7", 4)
     check_prefix_test(col, "C07.R7", repo)
+    from sa.props._tr import check_no_state_on_query_nodes
+    check_no_state_on_query_nodes(col, "C07.R7", repo)
+    # ---------------- R8 carriers outside the executor: the output directory and the dataset object
+    from sa.props._tr import check_copy_template
+    col.floor("C07.R8", 3)
+    check_copy_template(col, "C07.R8", repo, details=("output-file-is-this-query's-rendering", "output-file-replaced-not-overlaid"))
+    lds = repo.find_class("LocalDataset", hint="common.local_dataset")
+    for k in [lds] + list(repo.subclasses(lds)):
+        bad = []
+        for name, f in k.methods.items():
+            if name == "__init__":
+                continue
+            selfn = f.node.args.args[0].arg if f.node.args.args else "self"
+            # what depends on this call's arguments (the query): parameters, anything computed from them, and any object a
+            # tainted value was handed to (exe.apply_ast_transformations(a) makes exe carry the query's declarations)
+            tainted = {a.arg for a in f.node.args.args[1:]} | {a.arg for a in f.node.args.kwonlyargs}
+            names_in = lambda e: {x.id for x in ast.walk(e) if isinstance(x, ast.Name)}
+            changed = True
+            while changed:
+                changed = False
+                for n in ast.walk(f.node):
+                    if isinstance(n, (ast.Assign, ast.AnnAssign, ast.AugAssign)) and getattr(n, "value", None) is not None and names_in(n.value) & tainted:
+                        tg = n.targets if isinstance(n, ast.Assign) else [n.target]
+                        for t in tg:
+                            for x in ast.walk(t):
+                                if isinstance(x, ast.Name) and isinstance(x.ctx, ast.Store) and x.id not in tainted:
+                                    tainted.add(x.id)
+                                    changed = True
+                    if isinstance(n, ast.Call) and isinstance(n.func, ast.Attribute) and any(names_in(a) & tainted for a in list(n.args) + [kw.value for kw in n.keywords]):
+                        r = n.func.value
+                        while isinstance(r, (ast.Attribute, ast.Subscript, ast.Call)):
+                            r = r.func if isinstance(r, ast.Call) else r.value
+                        if isinstance(r, ast.Name) and r.id != selfn and r.id not in tainted:
+                            tainted.add(r.id)
+                            changed = True
+                    if isinstance(n, (ast.With, ast.For)):
+                        pairs = [(i.context_expr, i.optional_vars) for i in n.items] if isinstance(n, ast.With) else [(n.iter, n.target)]
+                        for e, t in pairs:
+                            if t is not None and names_in(e) & tainted:
+                                for x in ast.walk(t):
+                                    if isinstance(x, ast.Name) and x.id not in tainted:
+                                        tainted.add(x.id)
+                                        changed = True
+            for n in ast.walk(f.node):
+                val = None
+                if isinstance(n, (ast.Assign, ast.AnnAssign, ast.AugAssign)) and getattr(n, "value", None) is not None:
+                    tg = n.targets if isinstance(n, ast.Assign) else [n.target]
+                    if any(isinstance(t, ast.Attribute) and isinstance(t.value, ast.Name) and t.value.id == selfn for t in tg):
+                        val = n.value
+                elif isinstance(n, ast.Call) and call_name(n) == "setattr" and len(n.args) == 3 and src(n.args[0]) == selfn:
+                    val = n.args[2]
+                elif isinstance(n, ast.Call) and isinstance(n.func, ast.Attribute) and n.func.attr in MUTATORS \
+                        and isinstance(n.func.value, ast.Attribute) and isinstance(n.func.value.value, ast.Name) and n.func.value.value.id == selfn and n.args:
+                    val = ast.Tuple(elts=list(n.args), ctx=ast.Load())
+                if val is not None and names_in(val) & tainted:
+                    bad.append(f"{f.short}:{src(n)[:60]} (line {n.lineno})")
+        col.add("C07.R8", k.name, "dataset-object-not-written-by-a-query", not bad,
+                f"a dataset object is used for many queries: what one query declares (docker image metadata, the query itself) must stay in locals, "
+                f"never on the dataset ({bad})", k.module.rel)
     # ---------------- R6 fresh visitor / generated code per translation
     col.floor("C07.R6", 5)
     wf = ex.methods["write_cpp_files"]
